@@ -240,6 +240,225 @@ def analyse_mem():
     return defs
 
 
+def split_args(txt):
+    out, depth, cur = [], 0, ""
+    for ch in txt:
+        if ch in "([":
+            depth += 1
+        elif ch in ")]":
+            depth -= 1
+        if ch == "," and depth == 0:
+            out.append(cur.strip())
+            cur = ""
+        else:
+            cur += ch
+    out.append(cur.strip())
+    return out
+
+
+def analyse_calls():
+    """every distance-matrix loop (serial and OpenMP) calls the single-pair routine with (row series, column series)"""
+    rows = []
+    for src, names in (("src/DTAIDistanceC/DTAIDistanceC/dd_dtw.c", DM_FUNCTIONS), (SRC, OMP_FUNCTIONS)):
+        txt = strip_comments(open(os.path.join(REPO, src)).read())
+        fns = {}
+        for m in re.finditer(r"^idx_t\s+(\w+)\s*\(([^)]*)\)\s*\{", txt, flags=re.M | re.S):
+            start = m.end() - 1
+            fns[m.group(1)] = txt[start:match_brace(txt, start) + 1]
+        for fn in names:
+            body = fns.get(fn)
+            if body is None:
+                raise TranslateError("function %s not found in %s" % (fn, src))
+            ms = re.findall(r"value\s*=\s*(dtw_distance\w*)\s*\((.*?)\);", body, flags=re.S)
+            if len(ms) != 1:
+                raise TranslateError("%s: call of the single-pair routine matched %d times" % (fn, len(ms)))
+            callee, args = ms[0]
+            a = split_args(args)
+            if len(a) < 5:
+                raise TranslateError("%s: unexpected argument list of %s" % (fn, callee))
+
+            def uses(e, v):
+                return re.search(r"\b%s\b" % v, e) is not None
+            ok = (uses(a[0], "r") and not uses(a[0], "c") and uses(a[2], "c") and not uses(a[2], "r")
+                  and not uses(a[1], "c") and not uses(a[3], "r"))
+            rows.append((fn, callee, ok))
+    return rows
+
+
+OMP_FUNCTIONS = ["dtw_distances_ptrs_parallel", "dtw_distances_ndim_ptrs_parallel", "dtw_distances_matrix_parallel",
+                 "dtw_distances_ndim_matrix_parallel", "dtw_distances_matrices_parallel",
+                 "dtw_distances_ndim_matrices_parallel"]
+
+
+def analyse_omp_index():
+    """the index plan of the OpenMP distance-matrix routines: dtw_distances_prepare and the slot expressions"""
+    path = os.path.join(REPO, SRC)
+    txt = strip_comments(open(path).read())
+    fns = {}
+    for m in re.finditer(r"^(?:idx_t|int)\s+(\w+)\s*\(([^)]*)\)\s*\{", txt, flags=re.M | re.S):
+        start = m.end() - 1
+        fns[m.group(1)] = txt[start:match_brace(txt, start) + 1]
+    defs = []
+
+    def one(fn, pattern, what):
+        body = fns.get(fn)
+        if body is None:
+            raise TranslateError("function %s not found in %s" % (fn, SRC))
+        ms = re.findall(pattern, body, flags=re.S)
+        if len(ms) != 1:
+            raise TranslateError("%s: %s matched %d times (expected 1)" % (fn, what, len(ms)))
+        return ms[0]
+    fn = "dtw_distances_prepare"
+    a, b = one(fn, r"for\s*\(idx_t r=([^;]+);\s*r<([^;]+);\s*r\+\+\)", "prepare row loop")
+    defs.append(("c_prepare_row_start", c_expr(a)[1], c_expr(a)[0]))
+    defs.append(("c_prepare_row_end", c_expr(b)[1], c_expr(b)[0]))
+    x, y, t, f = one(fn, r"if\s*\(([^>]+) > ([^)]+)\)\s*\{\s*cb\s*=\s*([^;]+);\s*\}\s*else\s*\{\s*cb\s*=\s*([^;]+);\s*\}", "prepare cb")
+    ex, fx = c_expr(x)
+    ey, fy = c_expr(y)
+    et, ft = c_expr(t)
+    ef, ff = c_expr(f)
+    defs.append(("c_prepare_cb", sorted(set(fx) | set(fy) | set(ft) | set(ff)), "(if %s >? %s then %s else %s)" % (ex, ey, et, ef)))
+    one(fn, r"\(\*cbs\)\[ir\]\s*=\s*cb;\s*\(\*rls\)\[ir\]\s*=\s*rs;", "cbs/rls stores")
+    e, fv = c_expr(one(fn, r"\brs\s*\+=\s*([^;]+);", "rs increment"))
+    defs.append(("c_prepare_rs_inc", fv, e))
+    one(fn, r"ir = 0;\s*rs = (0);", "rs initialisation")
+    for k, fn in enumerate(OMP_FUNCTIONS):
+        tag = "c_omp%d" % k
+        e, fv = c_expr(one(fn, r"for\s*\(r_i=0;\s*r_i\s*<\s*\(([^)]+)\);\s*r_i\+\+\)", "parallel row loop bound"))
+        defs.append((tag + "_rows", fv, e))
+        e, fv = c_expr(one(fn, r"\br\s*=\s*([^;]+);\s*c_i\s*=\s*0;", "row index"))
+        defs.append((tag + "_row", fv, e))
+        a, b = one(fn, r"if\s*\(block->triu\)\s*\{\s*c\s*=\s*cbs\[([^\]]+)\];\s*\}\s*else\s*\{\s*c\s*=\s*([^;]+);\s*\}", "first column")
+        if a.strip() != "r_i":
+            raise TranslateError("%s: first column is expected to be cbs[r_i]" % fn)
+        defs.append((tag + "_col_rect", c_expr(b)[1], c_expr(b)[0]))
+        e, fv = c_expr(one(fn, r"for\s*\(;\s*c<([^;]+);\s*c\+\+\)", "column loop bound"))
+        defs.append((tag + "_col_end", fv, e))
+        a, b = one(fn, r"if\s*\(block->triu\)\s*\{\s*output\[rls\[r_i\] \+ ([^\]]+)\]\s*=\s*value;\s*\}\s*else\s*\{\s*output\[([^\]]+)\]\s*=\s*value;\s*\}", "output slots")
+        defs.append((tag + "_slot_triu_off", c_expr(a)[1], c_expr(a)[0]))
+        defs.append((tag + "_slot_rect", c_expr(b)[1], c_expr(b)[0]))
+        one(fn, r"\bc_i\+\+;", "c_i increment")
+    return defs
+
+
+LB_FUNCTIONS = ["lb_keogh", "lb_keogh_euclidean"]
+
+
+def analyse_lb():
+    """envelope bounds of the C LB_Keogh routines"""
+    path = os.path.join(REPO, "src/DTAIDistanceC/DTAIDistanceC/dd_dtw.c")
+    txt = strip_comments(open(path).read())
+    fns = {}
+    for m in re.finditer(r"^seq_t\s+(\w+)\s*\(([^)]*)\)\s*\{", txt, flags=re.M | re.S):
+        start = m.end() - 1
+        fns[m.group(1)] = txt[start:match_brace(txt, start) + 1]
+    defs = []
+
+    def one(fn, pattern, what):
+        body = fns.get(fn)
+        if body is None:
+            raise TranslateError("function %s not found in dd_dtw.c" % fn)
+        ms = re.findall(pattern, body, flags=re.S)
+        if len(ms) != 1:
+            raise TranslateError("%s: %s matched %d times (expected 1)" % (fn, what, len(ms)))
+        return ms[0]
+    for fn in LB_FUNCTIONS:
+        for var in ("imin_diff", "imax_diff"):
+            a, x, y, b = one(fn, r"idx_t\s+" + var + r"\s*=\s*([^;]+);\s*if\s*\((\w+) > (\w+)\)\s*\{\s*" + var + r"\s*\+=\s*([^;]+);\s*\}",
+                             var)
+            ea, fa = c_expr(a)
+            eb, fb = c_expr(b)
+            defs.append(("c_%s_%s" % (fn, var), sorted(set(fa) | set(fb) | {x, y}),
+                         "(if %s >? %s then (%s + %s) else %s)" % (x, y, ea, eb, ea)))
+        x, y, t, f = one(fn, r"if\s*\((\w+) > (\w+)\)\s*\{\s*imin\s*=\s*([^;]+);\s*\}\s*else\s*\{\s*imin\s*=\s*([^;]+);\s*\}", "imin")
+        et, ft = c_expr(t)
+        ef, ff = c_expr(f)
+        defs.append(("c_%s_imin" % fn, sorted(set(ft) | set(ff) | {x, y}), "(if %s >? %s then %s else %s)" % (x, y, et, ef)))
+        a, x, y, b = one(fn, r"\bimax\s*=\s*([^;]+);\s*if\s*\((\w+) > (\w+)\)\s*\{\s*imax\s*=\s*([^;]+);\s*\}", "imax")
+        ea, fa = c_expr(a)
+        eb, fb = c_expr(b)
+        if x != "imax":
+            raise TranslateError("%s: clamp of imax expected" % fn)
+        defs.append(("c_%s_imax" % fn, sorted(set(fa) | set(fb) | {y}), "(if %s >? %s then %s else %s)" % (ea, y, eb, ea)))
+        if len(re.findall(r"for\s*\(idx_t j=imin;\s*j<imax;\s*j\+\+\)", fns[fn])) != 2:
+            raise TranslateError("%s: the two envelope loops over [imin, imax) not found" % fn)
+    return defs
+
+
+DM_FUNCTIONS = ["dtw_distances_ptrs", "dtw_distances_matrix", "dtw_distances_ndim_matrix", "dtw_distances_ndim_ptrs"]
+
+
+def analyse_dm():
+    """the pair enumeration of the serial C distance-matrix routines and dtw_distances_length (block part)"""
+    path = os.path.join(REPO, "src/DTAIDistanceC/DTAIDistanceC/dd_dtw.c")
+    txt = strip_comments(open(path).read())
+    fns = {}
+    for m in re.finditer(r"^idx_t\s+(\w+)\s*\(([^)]*)\)\s*\{", txt, flags=re.M | re.S):
+        start = m.end() - 1
+        fns[m.group(1)] = txt[start:match_brace(txt, start) + 1]
+    defs = []
+
+    def one(fn, pattern, what, n=1):
+        body = fns.get(fn)
+        if body is None:
+            raise TranslateError("function %s not found in dd_dtw.c" % fn)
+        ms = re.findall(pattern, body, flags=re.S)
+        if len(ms) != n:
+            raise TranslateError("%s: %s matched %d times (expected %d)" % (fn, what, len(ms), n))
+        return ms[0]
+    for fn in DM_FUNCTIONS:
+        nb = one(fn, r"if\s*\(block->re == 0\)\s*\{\s*block->re\s*=\s*([^;]+);\s*\}", "re correction")
+        nb2 = one(fn, r"if\s*\(block->ce == 0\)\s*\{\s*block->ce\s*=\s*([^;]+);\s*\}", "ce correction")
+        e1, f1 = c_expr(nb)
+        e2, f2 = c_expr(nb2)
+        if len(f1) != 1 or len(f2) != 1:
+            raise TranslateError("%s: block correction is expected to use one variable" % fn)
+        defs.append(("c_%s_re" % fn, ["re", f1[0]], "(if re =? 0 then %s else re)" % e1))
+        defs.append(("c_%s_ce" % fn, ["ce", f2[0]], "(if ce =? 0 then %s else ce)" % e2))
+        a, b = one(fn, r"for\s*\(r=([^;]+);\s*r<([^;]+);\s*r\+\+\)", "row loop")
+        ea, fa = c_expr(a)
+        eb, fb = c_expr(b)
+        defs.append(("c_%s_row_start" % fn, fa, ea))
+        defs.append(("c_%s_row_end" % fn, fb, eb))
+        x, y, t, f = one(fn, r"if\s*\(block->triu && ([^>]+) > ([^)]+)\)\s*\{\s*cb\s*=\s*([^;]+);\s*\}\s*else\s*\{\s*cb\s*=\s*([^;]+);\s*\}",
+                         "column start")
+        ex, fx = c_expr(x)
+        ey, fy = c_expr(y)
+        et, ft = c_expr(t)
+        ef, ff = c_expr(f)
+        fv = sorted(set(fx) | set(fy) | set(ft) | set(ff))
+        defs.append(("c_%s_col_start" % fn, ["triu"] + fv,
+                     "(if (0 <? triu) && (%s >? %s) then %s else %s)" % (ex, ey, et, ef)))
+        a, b = one(fn, r"for\s*\(c=([^;]+);\s*c<([^;]+);\s*c\+\+\)", "column loop")
+        if a.strip() != "cb":
+            raise TranslateError("%s: the column loop is expected to start at cb" % fn)
+        eb, fb = c_expr(b)
+        defs.append(("c_%s_col_end" % fn, fb, eb))
+        if len(re.findall(r"output\[i\]\s*=\s*value;\s*i\s*\+=\s*1;", fns[fn])) != 1:
+            raise TranslateError("%s: results are expected to be stored at consecutive positions" % fn)
+    # dtw_distances_length, block given, triangular: per-row contribution
+    fn = "dtw_distances_length"
+    a, b = one(fn, r"for\s*\(ir=([^;]+);\s*ir<([^;]+);\s*ir\+\+\)", "length row loop")
+    c1, d1, c2, d2 = one(fn, r"if\s*\(ir < ([^)]+)\)\s*\{\s*delta\s*=\s*([^;]+);\s*\}\s*else\s*\{\s*if\s*\(([^)]+) <= ir\)\s*\{\s*break;\s*\}\s*else\s*\{\s*delta\s*=\s*([^;]+);\s*\}\s*\}",
+                         "delta")
+    e_c1, f_c1 = c_expr(c1)
+    e_d1, f_d1 = c_expr(d1)
+    e_c2, f_c2 = c_expr(c2)
+    e_d2, f_d2 = c_expr(d2)
+    fv = sorted(set(f_c1) | set(f_d1) | set(f_c2) | set(f_d2) | {"ir"})
+    # a row that hits the "break" contributes nothing, and neither do the rows after it (delta would be negative)
+    defs.append(("c_dtw_distances_length_delta", fv,
+                 "(if ir <? %s then %s else if %s <=? ir then 0 else %s)" % (e_c1, e_d1, e_c2, e_d2)))
+    ea, fa = c_expr(a)
+    eb, fb = c_expr(b)
+    defs.append(("c_dtw_distances_length_row_start", fa, ea))
+    defs.append(("c_dtw_distances_length_row_end", fb, eb))
+    r1, c1_, r2, c2_ = one(fn, r"length\s*=\s*\(([^)]+) - ([^)]+)\)\s*\*\s*\(([^)]+) - ([^)]+)\);", "rectangular length")
+    defs.append(("c_dtw_distances_length_rect", ["rb", "re", "cb", "ce"],
+                 "((%s - %s) * (%s - %s))" % (c_expr(r1)[0], c_expr(c1_)[0], c_expr(r2)[0], c_expr(c2_)[0])))
+    return defs
+
+
 def coq_str_list(xs):
     return "[" + "; ".join('"%s"' % x for x in xs) + "]"
 
@@ -280,6 +499,64 @@ def main():
         lines.append("Definition %s %s : Z := %s." % (name, " ".join("(%s : Z)" % v for v in fv), e))
     text = "\n".join(lines) + "\n"
     p = os.path.join(outdir, "Gen_cmem.v")
+    old = open(p).read() if os.path.exists(p) else None
+    if old != text:
+        open(p, "w").write(text)
+    try:
+        defs = analyse_dm()
+    except (TranslateError, OSError) as exc:
+        print("TRANSLATE-ERROR: translate_c: %s" % exc)
+        sys.exit(2)
+    lines = ["(* GENERATED by tools/translate_c.py from src/DTAIDistanceC/DTAIDistanceC/dd_dtw.c -- do not edit *)",
+             "From Coq Require Import ZArith Bool.", "Open Scope Z_scope.", ""]
+    for name, fv, e in defs:
+        lines.append("Definition %s %s : Z := %s." % (name, " ".join("(%s : Z)" % v for v in fv), e))
+    text = "\n".join(lines) + "\n"
+    p = os.path.join(outdir, "Gen_cmatrix.v")
+    old = open(p).read() if os.path.exists(p) else None
+    if old != text:
+        open(p, "w").write(text)
+    try:
+        defs = analyse_lb()
+    except (TranslateError, OSError) as exc:
+        print("TRANSLATE-ERROR: translate_c: %s" % exc)
+        sys.exit(2)
+    lines = ["(* GENERATED by tools/translate_c.py from src/DTAIDistanceC/DTAIDistanceC/dd_dtw.c -- do not edit *)",
+             "From Coq Require Import ZArith Bool.", "Open Scope Z_scope.", ""]
+    for name, fv, e in defs:
+        lines.append("Definition %s %s : Z := %s." % (name, " ".join("(%s : Z)" % v for v in fv), e))
+    text = "\n".join(lines) + "\n"
+    p = os.path.join(outdir, "Gen_clb.v")
+    old = open(p).read() if os.path.exists(p) else None
+    if old != text:
+        open(p, "w").write(text)
+    try:
+        defs = analyse_omp_index()
+    except (TranslateError, OSError) as exc:
+        print("TRANSLATE-ERROR: translate_c: %s" % exc)
+        sys.exit(2)
+    lines = ["(* GENERATED by tools/translate_c.py from %s -- do not edit *)" % SRC,
+             "From Coq Require Import ZArith Bool.", "Open Scope Z_scope.", ""]
+    for name, fv, e in defs:
+        lines.append("Definition %s %s : Z := %s." % (name, " ".join("(%s : Z)" % v for v in fv), e))
+    text = "\n".join(lines) + "\n"
+    p = os.path.join(outdir, "Gen_ompidx.v")
+    old = open(p).read() if os.path.exists(p) else None
+    if old != text:
+        open(p, "w").write(text)
+    try:
+        rows = analyse_calls()
+    except (TranslateError, OSError) as exc:
+        print("TRANSLATE-ERROR: translate_c: %s" % exc)
+        sys.exit(2)
+    lines = ["(* GENERATED by tools/translate_c.py from dd_dtw.c and dd_dtw_openmp.c -- do not edit *)",
+             "From Coq Require Import String List Bool.", "Import ListNotations.", "Open Scope string_scope.", "",
+             "(* (matrix routine, single-pair routine it calls, first series indexed by the row / second by the column) *)",
+             "Definition c_matrix_calls : list (string * string * bool) := ["]
+    lines.append(";\n".join('  ("%s", "%s", %s)' % (a, b, "true" if c else "false") for a, b, c in rows))
+    lines.append("].")
+    text = "\n".join(lines) + "\n"
+    p = os.path.join(outdir, "Gen_ccalls.v")
     old = open(p).read() if os.path.exists(p) else None
     if old != text:
         open(p, "w").write(text)
